@@ -518,7 +518,7 @@ void rfbHideCursor(rfbClientPtr cl)
    x1=cl->cursorX-c->xhot;
    x2=x1+c->width;
    if(x1<0) x1=0;
-   if(x2>=s->width) x2=s->width-1;
+   if(x2>s->width) x2=s->width;
    x2-=x1; if(x2<=0) {
      UNLOCK(s->cursorMutex);
      return;
@@ -526,7 +526,7 @@ void rfbHideCursor(rfbClientPtr cl)
    y1=cl->cursorY-c->yhot;
    y2=y1+c->height;
    if(y1<0) y1=0;
-   if(y2>=s->height) y2=s->height-1;
+   if(y2>s->height) y2=s->height;
    y2-=y1; if(y2<=0) {
      UNLOCK(s->cursorMutex);
      return;
@@ -574,7 +574,7 @@ void rfbShowCursor(rfbClientPtr cl)
    x1=cl->cursorX-c->xhot;
    x2=x1+c->width;
    if(x1<0) { i1=-x1; x1=0; }
-   if(x2>=s->width) x2=s->width-1;
+   if(x2>s->width) x2=s->width;
    x2-=x1; if(x2<=0) {
      UNLOCK(s->cursorMutex);
      return; /* nothing to do */
@@ -583,7 +583,7 @@ void rfbShowCursor(rfbClientPtr cl)
    y1=cl->cursorY-c->yhot;
    y2=y1+c->height;
    if(y1<0) { j1=-y1; y1=0; }
-   if(y2>=s->height) y2=s->height-1;
+   if(y2>s->height) y2=s->height;
    y2-=y1; if(y2<=0) {
      UNLOCK(s->cursorMutex);
      return; /* nothing to do */
